@@ -113,3 +113,21 @@ Example C14x_rejects_passing_over :
   monitor_C14x 4 4 ops (fst (run [1; 2; 3] (init 4 4) ops)) = true /\
   monitor_C14 4 4 ops bad = true /\ monitor_C14x 4 4 ops bad = false.
 Proof. vm_compute. repeat split. Qed.
+
+(* ---- an error of a release / release-peer call must be legitimate --------------------------- *)
+(* [monitor_C14x] also requires, of a release / release-peer observation that returned an error,
+   that the peer holds nothing and has nothing waiting (covered by C14_monitor_x above: the model's
+   calls fail only for a peer they do not know).  Discrimination: A=1 is granted 1000 (the whole
+   total), B=2 asks 400 and waits; ReleasePeer(B) returns the error although B has a waiting
+   allocation, which is neither failed nor dropped; ReleasePeer(A) then grants B its 400.  The model
+   fails B's ticket in the ReleasePeer(B) call.  [monitor_C14] accepts the bad history (it does not
+   question an error), [monitor_C14x] rejects it. *)
+Example C14x_rejects_illegitimate_error :
+  let ops := [OAlloc 1 1000; OAlloc 2 400; OReleasePeer 2; OReleasePeer 1] in
+  let bad := [ Build_obs [Granted 0] false 1000 0 0 [1000; 0]; Build_obs [] false 1000 400 1 [1000; 0];
+               Build_obs [] true 1000 400 1 [1000; 0]; Build_obs [Granted 1] false 400 0 0 [0; 400] ] in
+  map (fun ob => (o_outs ob, o_err ob)) (fst (run [1; 2] (init 1000 1000) ops)) =
+    [([Granted 0], false); ([], false); ([Failed 1], false); ([], false)] /\
+  monitor_C14x 1000 1000 ops (fst (run [1; 2] (init 1000 1000) ops)) = true /\
+  monitor_C14 1000 1000 ops bad = true /\ monitor_C14x 1000 1000 ops bad = false.
+Proof. vm_compute. repeat split. Qed.
